@@ -20,7 +20,7 @@ func init() {
 			"R3 a range over a string whose rune reaches the output without separating utf8.RuneError/width 1 collapses invalid bytes to U+FFFD. " +
 			"R4 needQuoteSQLIdent and the lexer's identifier scan use the same classifiers and keyword table (resolved callees) and QuoteSQLIdent returns its argument unquoted only on the false edge of needQuoteSQLIdent. " +
 			"Does not decide: unicode.IsPrint behaviour over the whole rune range.",
-		Rules: []ruleFn{ruleC14R1, ruleC14R2, ruleC14R7, ruleC15R1, ruleC15R2, ruleC15R3, ruleC15R4, ruleC15R5},
+		Rules: []ruleFn{ruleC14R1, ruleC14R2, ruleC14R7, ruleC15R1, ruleC15R2, ruleC15R3, ruleC15R4, ruleC15R5, ruleC15R6},
 	})
 }
 
@@ -730,3 +730,103 @@ func returnsConst(b *ssa.BasicBlock, want bool) bool {
 }
 
 var _ = strings.Join
+
+
+// ruleC15R6: the value of a quoted literal is what the scan decoded, nothing else. Every value consumeQuotedContent
+// returns is the empty string (error paths) or the string conversion of the byte slice the scan loop built by appending
+// — not that slice handed through another function ("normalise CRLF", "trim", "to valid UTF-8"): a post-processing of the
+// decoded bytes also rewrites what escape sequences produced, and the quoting functions emit exactly such escapes.
+func ruleC15R6(w *World, r *Report) {
+	const rule = "C15/R6"
+	r.rule(rule, "every return of (*Lexer).consumeQuotedContent yields \"\" or string(content) where content is built only by append (through phis) from the bytes the scan decoded: the decoded value is not post-processed", 1)
+	fn := w.fn(w.Mem, "(*Lexer).consumeQuotedContent")
+	if fn == nil {
+		r.errorf("(*Lexer).consumeQuotedContent not found")
+		return
+	}
+	var builtByAppend func(v ssa.Value, seen map[ssa.Value]bool) string
+	builtByAppend = func(v ssa.Value, seen map[ssa.Value]bool) string {
+		if seen[v] {
+			return ""
+		}
+		seen[v] = true
+		switch x := v.(type) {
+		case *ssa.Const:
+			return ""
+		case *ssa.Phi:
+			for _, e := range x.Edges {
+				if why := builtByAppend(e, seen); why != "" {
+					return why
+				}
+			}
+			return ""
+		case *ssa.Slice:
+			return builtByAppend(x.X, seen)
+		case *ssa.MakeSlice, *ssa.Alloc:
+			return ""
+		case *ssa.Convert:
+			return "" // []byte(s[a:b]): a copy of input bytes
+		case *ssa.UnOp:
+			if x.Op == token.MUL {
+				if al, ok := x.X.(*ssa.Alloc); ok {
+					// a local variable captured or address-taken: every store to it
+					for _, u := range referrers(al) {
+						if st, ok := u.(*ssa.Store); ok && st.Addr == ssa.Value(al) {
+							if why := builtByAppend(st.Val, seen); why != "" {
+								return why
+							}
+						}
+					}
+					return ""
+				}
+			}
+		case *ssa.Call:
+			if bi, ok := x.Call.Value.(*ssa.Builtin); ok && bi.Name() == "append" {
+				return builtByAppend(x.Call.Args[0], seen)
+			}
+			if c := x.Call.StaticCallee(); c != nil {
+				if c.Pkg != nil && c.Pkg.Pkg.Path() == "unicode/utf8" && strings.HasPrefix(c.Name(), "Append") {
+					return builtByAppend(x.Call.Args[0], seen)
+				}
+				return "passes through " + c.String()
+			}
+			return "passes through a call"
+		}
+		return "is " + v.String()
+	}
+	n := 0
+	for _, b := range fn.Blocks {
+		ret, ok := b.Instrs[len(b.Instrs)-1].(*ssa.Return)
+		if !ok || len(ret.Results) < 1 {
+			continue
+		}
+		n++
+		construct := fmt.Sprintf("return %d of consumeQuotedContent", n)
+		why := ""
+		for _, o := range phiOrigins(ret.Results[0]) {
+			switch x := o.(type) {
+			case *ssa.Const:
+			case *ssa.Convert:
+				why = builtByAppend(x.X, map[ssa.Value]bool{})
+			case *ssa.Call:
+				why = "is the result of " + x.Call.Value.String()
+				if c := x.Call.StaticCallee(); c != nil {
+					why = "is the result of " + c.Name() + "(…), not string(content)"
+				}
+			default:
+				why = "is " + o.String()
+			}
+			if why != "" {
+				break
+			}
+		}
+		if why != "" {
+			r.bad(rule, construct, w.pos(ret.Pos()), "the literal's value "+why+": the decoded bytes are post-processed, so a value that the quoting functions wrote with escapes does not lex back to itself")
+		} else {
+			r.ok(rule, construct, w.pos(ret.Pos()), "\"\" or string(content) with content built by append")
+		}
+	}
+	if n == 0 {
+		r.errorf("no return found in consumeQuotedContent")
+	}
+}
